@@ -108,9 +108,39 @@ func layout(r *ev.Run, p progen.Program, c *counters) {
 			r.Report("layout-changes-tree:"+kind, fmt.Sprintf("%q parses to a different tree than %q (%s)", variant, src, kind), replayIn{"L", src, variant, kind}, ev.Clip(got, 300), ev.Clip(want, 300))
 		}
 	}
+	// A line break at any other gap inside an unclosed ( or [ - where no statement can end - is either not
+	// accepted by the grammar (a syntax error: outside the statement) or accepted, and then it must not change
+	// the tree: what parses silently to something else has dropped or re-read tokens (x[1:<break>2] read as x[1:]).
+	tryIfAccepted := func(kind, variant string) {
+		atomic.AddInt64(&c.variants, 1)
+		r.Eval(1)
+		got, err, pan := parseDump(variant)
+		switch {
+		case pan != "":
+			r.Report("layout-gopanic:"+kind, fmt.Sprintf("%q\n  %s", variant, pan), replayIn{"L", src, variant, kind}, pan, "same tree or a syntax error")
+		case err != nil:
+			r.Outcome("L|break-inside-brackets-rejected")
+		case got != want:
+			r.Report("layout-changes-tree:"+kind, fmt.Sprintf("%q is accepted and parses to a different tree than %q (%s)", variant, src, kind), replayIn{"L", src, variant, kind}, ev.Clip(got, 300), ev.Clip(want, 300))
+		default:
+			r.Outcome("L|break-inside-brackets-accepted")
+		}
+	}
+	var open []string
 	for g := 0; g+1 < len(toks); g++ {
+		switch toks[g].T {
+		case "(", "[", "{":
+			open = append(open, toks[g].T)
+		case ")", "]", "}":
+			if len(open) > 0 {
+				open = open[:len(open)-1]
+			}
+		}
 		if toks[g].NL || toks[g+1].NL {
 			continue // line ends are handled below
+		}
+		if !toks[g].NLAfter && len(open) > 0 && open[len(open)-1] != "{" {
+			tryIfAccepted("newline-inside-brackets", join(toks, g, "\n"))
 		}
 		for ii, in := range insertions {
 			if !thorough && (ii == 0 || ii == 1 || ii == 4) {
